@@ -104,6 +104,9 @@ Lemma frag_stmt_loop k sc cond body sp :
   frag_stmt pv sv bound fl (S k) sc (SLoop cond body sp) =
   if (noexit_expr k cond && frag_expr pv sv bound fl k sc cond && is_some (frag_stmts pv sv bound fl k sc body))%bool then Some sc else None.
 Proof. reflexivity. Qed.
+Lemma frag_stmt_ret k sc value sp :
+  frag_stmt pv sv bound fl (S k) sc (SRet (Some value) sp) = if frag_expr pv sv bound fl k sc value then Some sc else None.
+Proof. reflexivity. Qed.
 Lemma frag_stmt_assign k sc op v vsp value sp :
   frag_stmt pv sv bound fl (S k) sc (SAssignment op (ERead v vsp) value sp) =
   if (assign_op op && memN v sc && frag_expr pv sv bound fl k sc value)%bool then Some sc else None.
@@ -430,6 +433,14 @@ Proof.
   - (* SContinue *)
     cbn in Hlow. inversion Hlow; subst. eexists _, _.
     apply (cshape_plain u l (IGoto ctx) c' c'); [lia | reflexivity | reflexivity | reflexivity].
+  - (* SRet *)
+    destruct value as [value|]; [|discriminate Hfrag]. rewrite frag_stmt_ret in Hfrag. cbn [statement] in Hlow. mon Hlow.
+    destruct (frag_expr pv sv bound fl k sc value) eqn:Hfe; [|discriminate Hfrag].
+    destruct a as [code_v rv]. cbn [fst snd] in *.
+    destruct (IHe g (Nat.le_refl g) k value ctx c code_v rv c' sc l Hm Hfe) as (b1 & l1 & Hs1 & _).
+    pose proof Hs1 as (_ & Hcc & _).
+    eexists _, _. eapply cshape_app; [exact Hs1|].
+    apply (cshape_plain u l1 (IReturn rv) c' c'); [lia | reflexivity | reflexivity | reflexivity].
   - (* SBlock *)
     rewrite frag_stmt_block in Hfrag. cbn [statement] in Hlow. apply lower_list_ok in Hlow as (cs & Hm & ->).
     destruct (frag_stmts pv sv bound fl k sc statements) as [sc1|] eqn:Hs; [|discriminate Hfrag].
